@@ -270,6 +270,7 @@ def k3_contracts():
         raises=[("LASHeaderError", k3_raises)],
         modifies={"$cursor": None},
         loops={0: k3_inv}, loop_anchor={0: "enumerate(file_obj)"},
+        break_cut={0: ["if line_no == line_nos[1]"]}, break_cut_skip=("within-body",),
         loop_hints={0: lambda c: [(c.g("ax:hrank-step"), [c.v("line_no").t + 1])]},
         ghost_init=k3_init, hooks={"section.append(item)": k3_append_hook},
         returns=LI.SI, reveal=("io",),
